@@ -124,7 +124,7 @@ func init() {
 			inputs []string
 		}{{"mlp", []string{"data_input:2,3"}}, {"scaler", []string{"X:2,3"}}, {"gru", []string{"data_input:2,2,3", "init_hidden:1,2,5"}}} {
 			p.Jobs = append(p.Jobs, Job{Harness: "gonnx.H_C17", Case: map[string]interface{}{"sample": s.name, "inputs": s.inputs, "mode": "",
-				"ops": []string{}, "ins": []string{}, "outs": []string{}, "attrs": []string{}, "inits": []string{}, "outputs": []string{}, "inputsB": []string{}, "inputsBad": []string{}, "feedback": ""}})
+				"ops": []string{}, "ins": []string{}, "outs": []string{}, "attrs": []string{}, "inits": []string{}, "outputs": []string{}, "inputsB": []string{}, "inputsBad": []string{}, "lazyT": "", "feedback": ""}})
 		}
 		p.Level = "other"
 		p.RaceHarness = "gonnx.H_C17_race"
@@ -137,6 +137,11 @@ func init() {
 		return p
 	}
 }
+
+// operators for which the history is also run with a lazily transposed caller tensor
+var lazyTOps = map[string]bool{"Reshape": true, "Flatten": true, "Squeeze": true, "Unsqueeze": true, "Transpose": true, "Relu": true, "Abs": true,
+	"Add": true, "Mul": true, "MatMul": true, "Gemm": true, "Concat": true, "Slice": true, "Gather": true, "Expand": true, "ReduceMax": true, "ArgMax": true,
+	"Scaler": true, "LinearRegressor": true, "Shape": true, "Cast": true}
 
 func c02Plan(o Options, prop, harness string) *Plan {
 	{
@@ -200,7 +205,20 @@ func c02Plan(o Options, prop, harness string) *Plan {
 					}
 				}
 				cm["inputsBad"] = bad
+				cm["lazyT"] = ""
 				p.Jobs = append(p.Jobs, Job{Harness: harness, Case: cm})
+				// the first caller tensor handed over as a lazy transpose (rank-2 float inputs)
+				if variant == "caller" && len(inputs) > 0 && lazyTOps[c.op] {
+					first := strings.Split(inputs[0], ":")
+					if len(first) == 2 && strings.Count(first[1], ",") == 1 {
+						cm2 := map[string]interface{}{}
+						for k, x := range cm {
+							cm2[k] = x
+						}
+						cm2["lazyT"] = first[0]
+						p.Jobs = append(p.Jobs, Job{Harness: harness, Case: cm2})
+					}
+				}
 			}
 		}
 		// multi-node graphs from C01 (binding shapes) under the same history
@@ -215,6 +233,10 @@ func c02Plan(o Options, prop, harness string) *Plan {
 			{{"Transpose", "w", "t", "perm=0,1"}, {"MatMul", "x,t", "o", ""}},
 			{{"Squeeze", "w", "t", ""}, {"Unsqueeze", "t,ax0", "u", ""}, {"Add", "x,t", "o", ""}},
 			{{"Cast", "w", "t", "to=1"}, {"Add", "t,x", "o", ""}},
+			// constants decoded from raw bytes on every Run (float64, float32, int64 readers)
+			{{"Constant", "", "c", "value_raw=11:2:000000000000f03f0000000000000040"}, {"Cast", "c", "t", "to=1"}, {"Add", "x,t", "o", ""}},
+			{{"Constant", "", "c", "value_raw=1:2:0000404000008040"}, {"Mul", "x,c", "o", ""}},
+			{{"Constant", "", "c", "value_raw=7:2:ffffffffffffffff0000000000000000"}, {"Gather", "x,c", "o", "axis=1"}},
 		} {
 			inputs, inits := []string{"x:2,2"}, []string{"w:2,2", "b:2"}
 			outs := []string{"o"}
@@ -229,6 +251,7 @@ func c02Plan(o Options, prop, harness string) *Plan {
 			cm["mode"] = ""
 			cm["feedback"] = ""
 			cm["inputsBad"] = []string{}
+			cm["lazyT"] = ""
 			p.Jobs = append(p.Jobs, Job{Harness: harness, Case: cm})
 		}
 		p.Bounds = []string{
